@@ -81,6 +81,10 @@ type Chain struct {
 	Minted sdk.Coins
 	// InBlock tells whether a block is open (BeginBlock done, EndBlock not).
 	InBlock bool
+	// TxMode makes Deliver sign a transaction and send it through the
+	// application's DeliverTx; every response is appended to TxTrace.
+	TxMode  bool
+	TxTrace []string
 }
 
 // Options for NewChain.
@@ -294,6 +298,9 @@ func (c *Chain) Supply(denom string) sdk.Int {
 // handler on a cache context, written back only on success. A panic inside
 // the handler is recovered (as runTx does) and reported as an error.
 func (c *Chain) Deliver(msg sdk.Msg) (res *sdk.Result, err error) {
+	if c.TxMode {
+		return c.deliverAsTx(msg)
+	}
 	if err := msg.ValidateBasic(); err != nil {
 		return nil, err
 	}
@@ -335,4 +342,38 @@ func (c *Chain) EndBlockObserveRecover() (err error) {
 	}()
 	c.EndBlockObserve()
 	return nil
+}
+
+func (c *Chain) deliverAsTx(msg sdk.Msg) (*sdk.Result, error) {
+	signers := msg.GetSigners()
+	var acc *Account
+	for i := range c.Accs {
+		if len(signers) > 0 && c.Accs[i].Addr.Equals(signers[0]) {
+			acc = &c.Accs[i]
+		}
+	}
+	if acc == nil {
+		return nil, fmt.Errorf("no key for signer of %T", msg)
+	}
+	resp, err := c.DeliverTx(*acc, msg)
+	if err != nil {
+		c.TxTrace = append(c.TxTrace, "build-error:"+err.Error())
+		return nil, err
+	}
+	ev := ""
+	for _, e := range resp.Events {
+		ev += e.Type + "{"
+		for _, a := range e.Attributes {
+			ev += a.Key + "=" + a.Value + ","
+		}
+		ev += "}"
+	}
+	// the free-text log is not part of the result hash of the consensus engine (and for a
+	// recovered panic it carries a stack trace with addresses); everything else is recorded
+	c.TxTrace = append(c.TxTrace, fmt.Sprintf("code=%d codespace=%s gas=%d/%d events=%s data=%x", resp.Code, resp.Codespace, resp.GasUsed, resp.GasWanted, ev, resp.Data))
+	// the deliver-state context was replaced by nothing: c.Ctx still reads the same multistore
+	if resp.Code != 0 {
+		return nil, fmt.Errorf("tx failed: code %d: %s", resp.Code, resp.Log)
+	}
+	return &sdk.Result{}, nil
 }
